@@ -88,7 +88,9 @@ def demoEnv : SEnv :=
 /-- `Ser.Sample.ops` performed with the translated functions: ids 5, 0, -3 in this order; `h` sets the non-default
 `patched = 1`, `g` sets `hardened` to its default; extras on the second asset; an association with two hosts; an
 attacker with two entry points -/
-def demoHeap : H := { Sample.ops.foldl (Tie.stepGen MS.Demo.lang demoEnv.model) {} with name := "demo model" }
+def demoHeap0 : H := { Sample.ops.foldl (Tie.stepGen MS.Demo.lang demoEnv.model) {} with name := "demo model" }
+/-- … and extras on the association (`association.extras = {...}`, as callers do after `add_association`) -/
+def demoHeap : H := demoHeap0.setL 0 { demoHeap0.l 0 with extras := some "{\"w\": 2}" }
 
 /-- the hypotheses of the theorems above hold for it -/
 example : HeapSet demoHeap ∧ DefsSchemaOrder demoEnv.lang demoHeap ∧
@@ -101,7 +103,8 @@ example : ∃ d, model__to_dict demoHeap demoEnv = .ok d ∧ docName d = "demo m
     docOf d =
     { assets := [(.i 5, .full "h" "Host" [("patched", "1.0")] none), (.i 0, .full "Net:0" "Net" [] (some "{\"x\": 1}")),
                  (.i (-3), .full "g" "Host" [] none)],
-      associations := [{ cls := "Link_Host_Net", lf := "hosts", left := [.i 5, .i (-3)], rf := "nets", right := [.i 0] }],
+      associations := [{ cls := "Link_Host_Net", lf := "hosts", left := [.i 5, .i (-3)], rf := "nets", right := [.i 0],
+                         extras := some "{\"w\": 2}" }],
       attackers := [(.i 9, { name := "eve", entry := [(.i 5, ["access"]), (.i (-3), ["access"])] })] } :=
   ⟨_, rfl, by decide, by decide⟩
 
@@ -201,6 +204,17 @@ theorem hand_written_loads :
       s.associations.map (assocView (abs s)) = [⟨"Link_Host_Net", "hosts", [0, 7], "nets", [-2], "{}"⟩] ∧
       s.attackers.map (attView (abs s)) = [⟨1, "eve", [(0, ["access"])]⟩] ∧
       LoadsTo (fromDoc demoEnv.lang (fun _ => true) (docOf handPy)) (fun m => SameModel demoEnv.lang (abs s) m)) := by
+  decide +kernel
+
+/-- an association entry with extras whose keys come in the order PyYAML writes them for a type name that sorts after
+`extras` (the `extras` key first, repair ff5c204): the type is found, the extras are kept -/
+theorem association_extras_first_loads :
+    let d : PyDoc := { handPy with associations := some [[("extras", .json "{\"w\": 2}"),
+      ("Link_Host_Net", .fields [("hosts", .list [.i 0, .i 7]), ("nets", .list [.i (-2)])])]] }
+    docShape d = true ∧
+    Returns (model__from_dict {} demoEnv d) (fun s =>
+      s.associations.map (assocView (abs s)) = [⟨"Link_Host_Net", "hosts", [0, 7], "nets", [-2], "{\"w\": 2}"⟩] ∧
+      LoadsTo (fromDoc demoEnv.lang (fun _ => true) (docOf d)) (fun m => SameModel demoEnv.lang (abs s) m)) := by
   decide +kernel
 
 /-- **any order of the asset entries, id 0 first** (evaluated): the reordered file loads to the reordered assets and
